@@ -3,7 +3,7 @@ import vpl, os, re, subprocess, tempfile, shutil, binascii
 from concurrent.futures import ThreadPoolExecutor
 
 LEVEL = "proof"
-LIBS = ["PgpCodecLemmas.vo"]
+LIBS = ["PgpCodecLemmas.vo", "PgpArmorLemmas.vo"]
 PARTS = ["r64", "crc", "armor", "len", "mpi", "s2kcnt", "s2k", "fpr", "pkt"]
 
 def s2k_slices(tier):
@@ -84,8 +84,8 @@ def run(res, tier, seed, replay):
                         "with that reference and with gcry_kdf_derive on the implementation (two-step link)",
                         "packets with elliptic-curve keys, v5 keys, secret keys and the signature-preparation functions are covered by the "
                         "implementation-level re-decoding oracle (PacketDecode) and, for the RFC 4880 subset, GnuPG; not by the model",
-                        "ArmorDecode is modelled as implemented (std::string::find semantics); its round trip is checked at implementation "
-                        "level and by correspondence, the general round-trip theorem is not proved (see docs/C19.md)"]
+                        "ArmorDecode is modelled as implemented (std::string::find semantics); round trip (non-empty data, no comment/version "
+                        "header) and the refusal theorems are proved for the model and tied to the code by the armenc/armdec records"]
     vpl.proof_stage(res, LIBS)
     exe = vpl.build_harness("c19")
     drv = vpl.build_driver("C19")
